@@ -129,12 +129,14 @@ theorem justifyOpts_total (hs : cx.Sane) (ed : Editor α) (w : Int) (o : Options
   · refine applyParasM_total ed _ _ (fun i p a b => ?_)
     refine bind_totalP (fun _ => True) ?_ (fun _ _ => ⟨_, rfl⟩)
     obtain ⟨r, hr, -⟩ := Block.mapLinesM_total
-      (Block.new (gRepeat [cx.phA] (gLen cx a) ++ p ++ gRepeat [cx.phA] (gLen cx b))
+      (Block.new (gRepeat [cx.placeholder (o.withDefaults cx).lineSep] (gLen cx a) ++ p ++
+          gRepeat [cx.placeholder (o.withDefaults cx).lineSep] (gLen cx b))
         (o.withDefaults cx).lineSep)
       (fun idx line =>
         if !(o.withDefaults cx).justifyLast ∧
-            (idx : Int) == ((Block.new (gRepeat [cx.phA] (gLen cx a) ++ p ++
-              gRepeat [cx.phA] (gLen cx b)) (o.withDefaults cx).lineSep).lines.length : Int) - 1
+            (idx : Int) == ((Block.new (gRepeat [cx.placeholder (o.withDefaults cx).lineSep] (gLen cx a) ++ p ++
+              gRepeat [cx.placeholder (o.withDefaults cx).lineSep] (gLen cx b))
+                (o.withDefaults cx).lineSep).lines.length : Int) - 1
         then pure line else justifyLine cx line w)
       (fun idx line => by
         split
